@@ -54,6 +54,12 @@ def gen(rng, tier, i):
     d = sc.add_direct("direct")
     sc.rule("direct")
     pattern = rng.choice(["silent", "trickle-c2s", "trickle-s2c", "burst", "alternate"])
+    if not is_udp and kind in ("http", "socks5", "socks4", "reverse", "tproxy") and T in (1, 2, 5) and rng.random() < 0.3:
+        # a receiver that drains slowly but steadily (2 KiB every 250 ms) behind small socket buffers: the tunnel carries data
+        # all the time, although one relay chunk takes longer than the idle period to get through
+        pattern = "slow-drain"
+        sc.net["chaos"] = {"capacity": 4096}
+        sc.cfg["ioParams"] = {"bufferSize": 65536, "useSplice": False}
     rounds = rng.randint(1, 4)
     # period of the trickle: just under T (or arbitrary when T = 0 / huge)
     if T == 0 or T >= HUGE:
@@ -102,6 +108,11 @@ def gen(rng, tier, i):
             trickle(cw, orr, rounds)
         elif pattern == "trickle-s2c":
             trickle(ow, cr, rounds)
+        elif pattern == "slow-drain":
+            L = 8192 * (2 * T + 10)
+            cw.append(op("send", fill=[7, L], timeout_ms=600000, on_fail="continue"))
+            orr.append(op("pace", chunk=2048, gap_ms=250))
+            orr.append(op("expect", fill=[7, L], timeout_ms=600000, label="data"))
         elif pattern == "burst":
             cw.append(op("send", fill=[7, 5000]))
             orr.append(op("expect", fill=[7, 5000], timeout_ms=60000, label="data"))
@@ -132,7 +143,8 @@ def gen(rng, tier, i):
             main_start = rng.choice([1500, 2500, 4000, 9000])
             if kind == "tproxy":
                 hs, proto = sc.client_handshake(li, host, int(port))     # (the tproxy listener remembers the last destination asked for)
-        sc.add_client("c", li, hs + [op("par", r=cr, w=cw)], start_ms=main_start)
+        # (slow-drain: the client's own connection has ordinary socket buffers, so that the relay reads whole chunks)
+        sc.add_client("c", li, hs + [op("par", r=cr, w=cw)], start_ms=main_start, chaos={"capacity": 1 << 20} if pattern == "slow-drain" else None)
         meta["cid"] = "c" if kind != "quic" else "c/s0"
         meta["proto"] = proto
         sc.max_ms = big + 20000
@@ -278,6 +290,12 @@ def oracle(plan, out):
                     close_t = start + (term[-1]["time"] - first) * 1000
     if start is None:
         return V
+    if meta["pattern"] == "slow-drain":
+        d = [r for r in R.records if r.get("label") == "data"]
+        if d and d[-1].get("res") != "ok":
+            v("closed-while-data-flowing", "configured %d s: the receiver drained 2 KiB every 250 ms without a pause, yet the stream ended with %s (tunnel closed at %s)" % (
+                T, d[-1].get("res"), ("%.3fs" % (close_t / 1e6)) if close_t else "?"))
+            return V
     a = last_activity_us(R, meta)
     base = a if a is not None else start
     if a is not None and a < start:
